@@ -735,3 +735,62 @@ Example C06_ex_lax_boundary :
   | _, _ => False
   end.
 Proof. vm_compute. repeat split; try reflexivity; discriminate. Qed.
+
+(* ---- IpHeaders struct value (extend-c08c) ---- *)
+(* The 17th type.  On the field-level model of IpHeaders built for property C08 (Roundtrip/IpHeaders.v:
+   Ipv4Header / Ipv6Header / Ipv4Extensions of C08, Ipv6Extensions + read_limited of C12, LimitedReader of
+   C16; executed against the crate on every `./check C08`, fields fs= / rd=): whenever
+   IpHeaders::from_slice accepts a byte string -- then the slice holds the announced packet, from_slice
+   checks it -- and the input is outside the known class F15 (IPv6 payload_length 0 followed by an
+   extension header), IpHeaders::read over a Cursor on the same bytes returns the SAME struct value
+   (every field of the IP header, every extension header) and the same ip number, and leaves the cursor
+   exactly behind the headers (header_len bytes consumed).  The other excluded class of
+   C06_read_eq_slice, "announced packet missing", cannot occur under the hypothesis (from_slice rejects
+   such input: C06_read_announced_missing_refuted); inside F15 the two differ: C06_read_eq_slice_ip_headers_refuted
+   and C08's IPHEADERS.C08_IpHeaders_read_zero_payload_len_refuted. *)
+From EP Require Roundtrip.IpHeaders Equiv.ReadValuesIp.
+Theorem C06_read_value_ip_headers : forall bs h p, bytes_ok bs -> F15 bs = false ->
+  Roundtrip.IpHeaders.iph_from_slice bs = Roundtrip.Common.Ok (h, p) ->
+  Roundtrip.IpHeaders.iph_read bs =
+    Roundtrip.Common.Ok (h, Roundtrip.IpHeaders.ipp_ip_number p, drop (Roundtrip.IpHeaders.iph_header_len h) bs).
+Proof.
+  exact (fun bs h p OK NF H =>
+           Equiv.ReadValuesIp.iph_read_eq_from_slice bs h p OK H
+             (eq_trans (eq_sym (Equiv.ReadValuesIp.F15_is_zero_len_ext bs h p H)) NF)).
+Qed.
+Print Assumptions C06_read_value_ip_headers.
+
+(* the same, per version-specific copy (dispatch = specific: C08's IPHEADERS.C08_IpHeaders_dispatch) *)
+Theorem C06_read_value_ip_headers_v4 : forall bs h p, bytes_ok bs ->
+  Roundtrip.IpHeaders.iph_from_ipv4_slice bs = Roundtrip.Common.Ok (h, p) ->
+  Roundtrip.IpHeaders.iph_read bs =
+    Roundtrip.Common.Ok (h, Roundtrip.IpHeaders.ipp_ip_number p, drop (Roundtrip.IpHeaders.iph_header_len h) bs).
+Proof. exact Equiv.ReadValuesIp.iph_read_eq_from_slice_v4. Qed.
+Print Assumptions C06_read_value_ip_headers_v4.
+
+(* non-vacuity: IPv4 + AH + 4 payload bytes + 1 trailing byte, and IPv6 + hop-by-hop + fragment header;
+   and the F15 witness of C06_read_eq_slice_ip_headers_refuted is accepted by from_slice, refused by read *)
+Example C06_ex_read_value_ip_headers :
+  let v4 := [69;0;0;40; 0;1;0;0; 64;51;0;0; 10;0;0;1; 10;0;0;2] ++ [17;2;0;0; 0;0;0;1; 0;0;0;2; 1;2;3;4]
+            ++ [9;9;9;9] ++ [7] in
+  let v6 := [96;0;0;0; 0;18; 0; 64] ++ repeat 1 16 ++ repeat 2 16 ++ [44;0;1;2;3;4;5;6] ++ [17;170;0;15;0;0;0;1]
+            ++ [9;9] ++ [7;7] in
+  (bytes_okb v4 = true /\ F15 v4 = false /\
+   match Roundtrip.IpHeaders.iph_from_slice v4, Roundtrip.IpHeaders.iph_read v4 with
+   | Roundtrip.Common.Ok (h, p), Roundtrip.Common.Ok (h', n, r) =>
+       h' = h /\ n = 17 /\ Roundtrip.IpHeaders.iph_header_len h = 36 /\ r = [9;9;9;9;7]
+   | _, _ => False
+   end) /\
+  (bytes_okb v6 = true /\ F15 v6 = false /\
+   match Roundtrip.IpHeaders.iph_from_slice v6, Roundtrip.IpHeaders.iph_read v6 with
+   | Roundtrip.Common.Ok (h, p), Roundtrip.Common.Ok (h', n, r) =>
+       h' = h /\ n = 17 /\ Roundtrip.IpHeaders.iph_header_len h = 56 /\ r = [9;9;7;7]
+   | _, _ => False
+   end) /\
+  (F15 f15_witness = true /\
+   match Roundtrip.IpHeaders.iph_from_slice f15_witness, Roundtrip.IpHeaders.iph_read f15_witness with
+   | Roundtrip.Common.Ok _, Roundtrip.Common.Err Roundtrip.Common.ELen => True
+   | _, _ => False
+   end).
+Proof. vm_compute. repeat split; reflexivity. Qed.
+(* ---- end extend-c08c ---- *)
